@@ -6,14 +6,18 @@ use std::io::Write as _;
 use std::path::{Path, PathBuf};
 
 #[derive(Clone)]
-pub struct Rng(pub u64);
+pub struct Rng {
+	pub s: u64,
+	/// bias integers to their maximum (used by the C13 oracle)
+	pub maxbias: bool,
+}
 impl Rng {
 	pub fn new(seed: u64) -> Self {
-		Rng(seed.wrapping_mul(0x9E3779B97F4A7C15) ^ 0xD1B54A32D192ED03)
+		Rng { s: seed.wrapping_mul(0x9E3779B97F4A7C15) ^ 0xD1B54A32D192ED03, maxbias: false }
 	}
 	pub fn next(&mut self) -> u64 {
-		self.0 = self.0.wrapping_add(0x9E3779B97F4A7C15);
-		let mut z = self.0;
+		self.s = self.s.wrapping_add(0x9E3779B97F4A7C15);
+		let mut z = self.s;
 		z = (z ^ (z >> 30)).wrapping_mul(0xBF58476D1CE4E5B9);
 		z = (z ^ (z >> 27)).wrapping_mul(0x94D049BB133111EB);
 		z ^ (z >> 31)
@@ -46,6 +50,9 @@ impl Rng {
 	/// boundary-biased value below 2^bits
 	pub fn biased(&mut self, bits: u32) -> u128 {
 		let mask: u128 = if bits >= 128 { u128::MAX } else { (1u128 << bits) - 1 };
+		if self.maxbias && self.chance(3, 4) {
+			return mask;
+		}
 		let r = match self.below(10) {
 			0 => 0,
 			1 => mask,
